@@ -152,10 +152,16 @@ func NewOrigin() *Origin {
 func (o *Origin) serve(w http.ResponseWriter, r *http.Request) {
 	body, _ := io.ReadAll(r.Body)
 	o.mu.Lock()
-	o.cnt[r.URL.Path]++
-	n := o.cnt[r.URL.Path]
-	o.hits = append(o.hits, Hit{Seq: o.seq.Add(1), Path: r.URL.Path, Method: r.Method, Body: body})
-	h := o.res[r.URL.Path]
+	key := r.URL.Path
+	if r.URL.RawQuery != "" {
+		if _, ok := o.res[key+"?"+r.URL.RawQuery]; ok {
+			key = key + "?" + r.URL.RawQuery // resources may be registered with their query string
+		}
+	}
+	o.cnt[key]++
+	n := o.cnt[key]
+	o.hits = append(o.hits, Hit{Seq: o.seq.Add(1), Path: key, Method: r.Method, Body: body})
+	h := o.res[key]
 	o.mu.Unlock()
 	if h == nil {
 		http.Error(w, "no such resource", 404)
@@ -264,10 +270,20 @@ func (o CRLOpts) Config() *config.CRLConfig {
 	if cfg.UpdateIntervalParsed == 0 {
 		cfg.UpdateIntervalParsed = time.Hour
 	}
+	// the raw option strings are set as well, exactly as the JSON/Caddyfile path leaves them
+	cfg.SignatureValidationMode = o.Sig
+	cfg.UpdateInterval = cfg.UpdateIntervalParsed.String()
 	if o.Disk {
 		cfg.StorageTypeParsed = config.Disk
+		cfg.StorageType = "disk"
 	} else {
 		cfg.StorageTypeParsed = config.Memory
+		cfg.StorageType = "memory"
+	}
+	if o.Background {
+		cfg.CDPConfig.CRLFetchMode = "fetch_background"
+	} else {
+		cfg.CDPConfig.CRLFetchMode = "fetch_actively"
 	}
 	switch o.Sig {
 	case "", "verify":
